@@ -52,11 +52,17 @@ def _case(draw, tier):
     return {"topo": topo, "nodes": nodes, "depth": depth, "hidden": hidden, "inactive": inactive, "mapped": mapped,
             "sched": draw(st.lists(st.integers(0, 7), max_size=40)),
             "select": draw(st.booleans()), "on_missing": draw(st.sampled_from(["ignore", "warn", "error"])),
-            "pair_pick": draw(st.integers(0, 20))}
+            "pair_pick": draw(st.integers(0, 20)),
+            # the class of the exception the node body raises: a custom class, or a subclass of a built-in one that library code
+            # might itself catch (TypeError from a call, KeyError from a lookup, ...)
+            "fail_exc": draw(st.sampled_from(["plain", "plain", "type", "key", "value", "runtime"]))}
 
 
 def strategy(tier):
     return _case(tier)
+
+
+FAIL_EXC = [None]  # set per case
 
 
 def _with_fail(nodes, failing, per_args=False):
@@ -67,7 +73,7 @@ def _with_fail(nodes, failing, per_args=False):
             g["nodes"] = _with_fail(g["nodes"], failing, per_args)
             out.append({**n, "graph": g})
         elif n["name"] in failing:
-            out.append({**n, "fail": "always", **({"fail_per_args": True} if per_args else {})})
+            out.append({**n, "fail": "always", "fail_exc": FAIL_EXC[0], **({"fail_per_args": True} if per_args else {})})
         else:
             out.append(n)
     return out
@@ -200,6 +206,8 @@ def check_case(case, ev):
             labels.add("select+" + case["on_missing"])
 
     mapped = case["mapped"]
+    FAIL_EXC[0] = case.get("fail_exc")
+    labels.add("raises:" + str(case.get("fail_exc") or "plain"))
     for failing in singles + pairs:
         fspec_nodes = _with_fail(nodes, set(failing))
         if any(flat_pred[f] and flat_desc[f] for f in failing):
